@@ -55,9 +55,15 @@ LW = sorted(set([0.0, 1e-6, 1e-3, 0.01, 0.03, 0.05, 0.1, 0.15, 0.2, 0.3, 0.5, 0.
 DENS = sorted(set(list(np.linspace(50, 916.7, 30)) + [100., 300., 350., 500., 900.]))
 
 
+# the needles Polder-van Santen quadratic cancels (brine permittivity of 50-80 against ice at 3.2): the two floating-point
+# evaluations agree to about 1e-10 of the value, so these slices are compared at 1e-8 (a wrong formula is off by >1e-3)
+TOL_PVS = Tol(1e-8)
+
+
 class Spec:
-    def __init__(self, name, module, call, gen, kind="c", bad=None, arr=(), argnames=()):
+    def __init__(self, name, module, call, gen, kind="c", bad=None, arr=(), argnames=(), tol=None):
         self.name, self.module, self.call, self.gen, self.kind = name, module, call, gen, kind
+        self.tol = tol
         self.bad, self.arr, self.argnames = bad, arr, argnames
 
     @property
@@ -182,10 +188,10 @@ def specs():
     S.append(Spec("saline_ice_pvs", "saline_ice",
                   lambda sh, f, T, vb: si.saline_ice_permittivity_pvs_mixing(f, T, vb, brine_inclusion_shape=("spheres", "random_needles")[int(sh)]),
                   lambda r: (float(r.integers(0, 2)), gf(r), tbrc(r), gvb(r)), bad=lambda r: [(0., gf(r), 280., 0.1)], arr=(1, 3),
-                  argnames=("shape", "frequency", "temperature", "brine_volume_fraction")))
+                  argnames=("shape", "frequency", "temperature", "brine_volume_fraction"), tol=TOL_PVS))
     S.append(Spec("saline_ice_pvs_mix", "saline_ice",
                   lambda q, f, T, vb: si.saline_ice_permittivity_pvs_mixing(f, T, vb, brine_inclusion_shape=("spheres", "random_needles"), brine_mixing_ratio=q),
-                  lambda r: (float(r.choice([0., 0.3, 0.5, 1.])), gf(r), tbrc(r), gvb(r)), argnames=("mixing_ratio", "frequency", "temperature", "brine_volume_fraction")))
+                  lambda r: (float(r.choice([0., 0.3, 0.5, 1.])), gf(r), tbrc(r), gvb(r)), argnames=("mixing_ratio", "frequency", "temperature", "brine_volume_fraction"), tol=TOL_PVS))
     # ---- snow_mixing_formula.py
 
     def gwetsnow(r, lwmax=0.9):
@@ -326,7 +332,7 @@ def correspond(ctx):
                 co.note(f"skipped (loud refusal {val}) {sp.name}")
                 continue
             line, out = encode(sp.name, sp.kind, args, val)
-            co.add(sp.slice, line, out, TOL, desc={"fn": sp.name, "args": dict(zip(sp.argnames, args))}, nontrivial=not isinstance(val, str))
+            co.add(sp.slice, line, out, sp.tol or TOL, desc={"fn": sp.name, "args": dict(zip(sp.argnames, args))}, nontrivial=not isinstance(val, str))
             co.note(("SMRTError " if isinstance(val, str) else "value ") + sp.module)
         # guards
         if sp.bad is not None:
@@ -366,7 +372,7 @@ def correspond(ctx):
                     break
                 for r_, v in zip(rows, res):
                     line, out = encode(sp.name, sp.kind, r_, v)
-                    co.add(sp.slice + ".array", line, out, TOL, desc={"fn": sp.name, "array_arg": sp.argnames[ai], "args": dict(zip(sp.argnames, r_))})
+                    co.add(sp.slice + ".array", line, out, sp.tol or TOL, desc={"fn": sp.name, "array_arg": sp.argnames[ai], "args": dict(zip(sp.argnames, r_))})
                 co.note(f"array-capable: {sp.name}({sp.argnames[ai]})")
     # three-component formulae: the root returned by scipy must satisfy the modelled residual equation
     from smrt.permittivity import snow_mixing_formula as smf
